@@ -96,8 +96,10 @@ func corpus0(w *world, o *hx.Out, k int) {
 	uu := u(1)
 	s.block(s.tx([]util.Uint160{u(0)}, &call{kind: kTransfer, src: u(0), dst: w.notaryH, amt: gasAmt(1), data: dNotary, till: h + 5, dto: &uu}),
 		&txSpec{notary: true, nkeys: 2, signers: []util.Uint160{u(0)}, sysFee: gasUnit / 2})
-	s.block()
-	s.block()
+	// u1's deposit (made for it by u0) pays a notary-assisted transaction whose fees equal it exactly
+	s.block(&txSpec{notary: true, nkeys: 0, signers: []util.Uint160{u(1)}, sysFee: gasUnit / 4, exhaust: 1})
+	// and u0's deposit one whose fees leave one datoshi
+	s.block(&txSpec{notary: true, nkeys: 1, signers: []util.Uint160{u(0)}, sysFee: gasUnit / 4, exhaust: 2})
 	s.block(s.tx([]util.Uint160{u(0)}, &call{kind: kWithdraw, src: u(0), dst: w.nopay}))      // faults
 	s.block(s.tx([]util.Uint160{u(0)}, &call{kind: kWithdraw, src: u(0), dst: w.wallets[0]})) // succeeds
 	s.block(s.tx([]util.Uint160{u(0)}, &call{kind: kWithdraw, src: u(0), dstNil: true}))      // nothing left: false
